@@ -358,6 +358,35 @@ func run(c *engine.Ctx) {
 			}
 		}
 	}
+	// escape sequences: every string of <= 4 symbols over {a, blank, \\\\, \\n, \\t, \\"} written double-quoted, and
+	// the same value written single-quoted: both must give the decoded value
+	syms := []string{"a", " ", "\\\\", "\\n", "\\t", "\\\""}
+	var esc func(src string, n int)
+	esc = func(src string, n int) {
+		if n > 0 {
+			// (white space next to an escaped line break: strip-then-substitute or substitute-then-strip
+			// is not settled by RFC 6020 - unspecified, as in C08)
+			unspec := strings.Contains(src, " \\n") || strings.Contains(src, "\\n ") || strings.Contains(src, "\\t\\n") || strings.Contains(src, "\\n\\t")
+			if val, ok := yangstr.DecodeDouble(src, 0); ok && !unspec && c.Owns("esc:"+src) {
+				forms := []string{"\"" + src + "\""}
+				if !strings.ContainsAny(val, "'") {
+					forms = append(forms, "'"+val+"'")
+				}
+				for fi, form := range forms {
+					text := "module m { namespace urn:m; prefix m; description\n" + form + "; }"
+					exp := []expNode{{kw: "module", arg: "m", depth: 0, line: 1, col: 0}, {kw: "namespace", arg: "urn:m", depth: 1, line: 1, col: 11}, {kw: "prefix", arg: "m", depth: 1, line: 1, col: 28}, {kw: "description", arg: val, depth: 1, line: 1, col: 38}}
+					do(fmt.Sprintf("escape:%d:%q", fi, src), text, exp, true)
+				}
+			}
+		}
+		if n == 4 {
+			return
+		}
+		for _, sy := range syms {
+			esc(src+sy, n+1)
+		}
+	}
+	esc("", 0)
 	c.Sample(map[string]any{"text": "module m {namespace urn:m; prefix m; leaf l1 /*c*/ {type string;}}", "expect": "module m@1:0 > namespace@1:10, prefix@1:27, leaf l1@1:37 > type string@1:53"})
 }
 
